@@ -112,6 +112,10 @@ def s_forced_unsupported(name):
         st.tuples(st.sampled_from(NAMES), st.sampled_from([0.25, -1.5, 3.0])).map(lambda t: ["add", ["sym", t[0]], ["float", t[1]]]),
         st.sampled_from([3, -3, 2]).map(lambda v: ["int", v]),
     )
+    if name == "dummy":
+        # sympy.Dummy symbols (distinct objects that may share a printed name) besides ordinary symbols
+        dm = st.sampled_from([0, 1, 2]).map(lambda i: ["dummy", i])
+        return st.tuples(dm, dm, leaf).map(lambda t: ["add", ["mul", ["int", 2], t[0]], ["mul", ["int", -3], t[1]], ["sin", ["add", t[0], t[2]]]])
     if name in SFUN1:
         core = leaf.map(lambda a: ["sfun", name, a])
     elif name in SFUN2:
@@ -126,8 +130,13 @@ def s_forced_unsupported(name):
     return wrap
 
 
+_DUMMIES = [sympy.Dummy("t"), sympy.Dummy("t"), sympy.Dummy("x")]  # distinct symbols, two of them with the same name
+
+
 def to_sympy(t, syms):
     k = t[0]
+    if k == "dummy":
+        return _DUMMIES[t[1]]
     if k == "sfun":
         return getattr(sympy, t[1])(*[to_sympy(c, syms) for c in t[2:]])
     if k == "sym":
@@ -204,6 +213,8 @@ def s_tree_magnitude_ok(t, point, limit=1e15):
             return float(t[1])
         if k == "pi":
             return m_.pi
+        if k == "dummy":
+            return [0.75, -1.25, 2.5][t[1]]
         if k == "mat":
             for row in t[1]:
                 for e in row:
@@ -274,7 +285,11 @@ def sympy_ref_value(expr, point, user=True, binding=None):
             for name, target in b.items():
                 e = e.replace(tmp[name], USER_SYM[target])
         fs = {str(s_) for s_ in e.free_symbols}
-        v = e.evalf(30, subs={sympy.Symbol(k): sympy.Float(val, 30) for k, val in point.items() if k in fs})
+        sub_ = {sympy.Symbol(k): sympy.Float(val, 30) for k, val in point.items() if k in fs}
+        for i_, d_ in enumerate(_DUMMIES):  # Dummy symbols take fixed, distinct values
+            if d_ in e.free_symbols:
+                sub_[d_] = sympy.Float([0.75, -1.25, 2.5][i_], 30)
+        v = e.evalf(30, subs=sub_)
     except Exception:
         return None  # division by zero etc.: outside the expression's domain
     return v
@@ -590,7 +605,7 @@ def c_num():
         return st.one_of(
             st.tuples(st.sampled_from(NUM1), ch).map(lambda t: [t[0], t[1]]),
             st.tuples(st.sampled_from(NUM2), ch, ch).map(lambda t: [t[0], t[1], t[2]]),
-            st.tuples(ch, st.sampled_from([2, 3, -1, 0.5, 2.5])).map(lambda t: ["cpow", t[0], t[1]]),
+            st.tuples(ch, st.sampled_from([2, 3, -1, 0.5, 2.5, 1.4142135623, 0.7316, -1.2345678])).map(lambda t: ["cpow", t[0], t[1]]),
             st.tuples(boolean2, ch, ch).map(lambda t: ["if_else", t[0], t[1], t[2]]),
             st.tuples(boolean2, ch).map(lambda t: ["if_else_zero", t[0], t[1]]),
         )
@@ -620,7 +635,7 @@ def c_forced(op):
     if op in NUM2:
         return st.tuples(ch, ch).map(lambda t: [op, t[0], t[1]])
     if op == "cpow":
-        return st.tuples(ch, st.sampled_from([2, 3, -1, 0.5, 2.5])).map(lambda t: ["cpow", t[0], t[1]])
+        return st.tuples(ch, st.sampled_from([2, 3, -1, 0.5, 2.5, 1.4142135623, 0.7316, -1.2345678])).map(lambda t: ["cpow", t[0], t[1]])
     cmpb = st.tuples(st.sampled_from(CMP), ch, ch).map(lambda t: [t[0], t[1], t[2]])
     if op in CMP:
         b = st.tuples(ch, ch).map(lambda t: [op, t[0], t[1]])
@@ -1145,7 +1160,8 @@ def check_c2s_unsupported(case):
     """Ops documented as not implemented must raise, never return something else."""
     s = sym()
     x, y = ca.SX.sym("x"), ca.SX.sym("y")
-    e = {"constpow": x**2.5, "copysign": ca.copysign(x, y), "log1p": ca.log1p(x), "hypot": ca.hypot(x, y)}[case["op"]]
+    e = {"constpow": x**2.5, "constpow_irr": x**1.4142135623, "constpow_neg": x**-1.2345678, "copysign": ca.copysign(x, y),
+         "log1p": ca.log1p(x), "hypot": ca.hypot(x, y)}[case["op"]]
     try:
         with cy.quiet():
             r = s.casadi_to_sympy(e)
@@ -1153,7 +1169,7 @@ def check_c2s_unsupported(case):
         return
     v = sympy.N(r.subs({sympy.Symbol("x"): 1.5, sympy.Symbol("y"): -2.0}))
     want = float(ca.Function("f", [x, y], [e])(1.5, -2.0))
-    if abs(float(v) - want) > 1e-9:
+    if abs(float(v) - want) > 1e-12 * (1 + abs(want)):
         raise Violation("casadi_to_sympy converted %s to %s, which evaluates to %s instead of %s" % (e, r, v, want))
 
 
@@ -1261,7 +1277,7 @@ def build(tier):
              build=lambda: sym(), shrink=True),
         Cell("s2c/matrix", s2c_case(matrix=True), lambda c: check_s2c(c, True), s2c_nontrivial, s2c_classify, quick=150, thorough=4000, case_limit=120),
         Cell("s2c/raises_or_equal", dict([("mixed", s2c_case(unsupported=True))]
-                                         + [(o, s2c_case(unsupported_op=o)) for o in SFUN1 + SFUN2 + ["piecewise", "pi"]]),
+                                         + [(o, s2c_case(unsupported_op=o)) for o in SFUN1 + SFUN2 + ["piecewise", "pi", "dummy"]]),
              lambda c: check_s2c(c, False),
              lambda c: bool(ops_of(c["tree"]) & {"exp", "abs", "max", "piecewise", "mod", "pi", "log", "sfun"}),
              s2c_classify, quick=800, thorough=12000, case_limit=120),
@@ -1277,8 +1293,8 @@ def build(tier):
              lambda c: ["op:" + c["op"]], quick=0, thorough=0, shrink=False, examples=[{"op": o} for o in sorted(TIE_OPS)]),
         atheris_cell("s2c", 20000),
         atheris_cell("c2s", 20000),
-        Cell("c2s/unsupported", st.sampled_from(["constpow", "copysign", "log1p", "hypot"]).map(lambda o: {"op": o}),
-             check_c2s_unsupported, lambda c: True, lambda c: [c["op"]], quick=8, thorough=8, shrink=False),
+        Cell("c2s/unsupported", st.sampled_from(["constpow", "constpow_irr", "constpow_neg", "copysign", "log1p", "hypot"]).map(lambda o: {"op": o}),
+             check_c2s_unsupported, lambda c: True, lambda c: [c["op"]], quick=24, thorough=24, shrink=False),
     ]
     return {
         "cells": cells,
